@@ -89,6 +89,18 @@ def run_shard(sh, ctx):
 			g['key'] = hid if hid else 'empty-id-replaced'
 		dbdir = w.write_db(base / 'db', with_extra=False)
 		dbids = [g['key'] for g in w.genomes]
+		# the signature file of a database may hold MORE signatures than the genome table lists (in any order): with --use-db the
+		# references are the signatures stored in that file, all of them, in file order
+		db_file_idx, db_file_ids = list(dbidx), list(dbids)
+		if rnd % 2 == 0:
+			extra_items = [rng.randrange(n) for _ in range(rng.randint(1, 3))]
+			entries = list(zip(dbidx, dbids)) + [(ei, f'not-in-genome-table/{t_}') for t_, ei in enumerate(extra_items)]
+			rng.shuffle(entries)
+			db_file_idx, db_file_ids = [e_[0] for e_ in entries], [e_[1] for e_ in entries]
+			newsig = G.sigfile(db_file_idx, k, prefix, f'dbsigs_{rnd}.gs', ids=db_file_ids)
+			import shutil as _sh
+			_sh.move(str(newsig), str(dbdir / 'signatures.gs'))
+			ctx.count('databases_whose_signature_file_holds_unlisted_signatures')
 		# ---- same names, different genomes: a second directory holding other genomes under the SAME file names -------------------
 		from vf.oracles import sigdef as S_, jaccard as J_
 		from vf.oracles.fasta import write_fasta as wf_
@@ -166,7 +178,7 @@ def run_shard(sh, ctx):
 					elif rch == 'use-db':
 						pre = ['-d', dbdir]
 						rargs = ['--use-db']
-						ridx, rlabels = dbidx, dbids
+						ridx, rlabels = db_file_idx, db_file_ids
 					else:
 						rargs = ['--square']
 						ridx, rlabels = qidx, qlabels
